@@ -599,11 +599,11 @@ class Path:
                  'axioms', 'extra', 'frames', 'notes', 'links')
 
 
-def explore(run, assume=(), max_paths=4000, on_path=None):
+def explore(run, assume=(), max_paths=4000, on_path=None, prefix=()):
     """run the callable on every feasible path.  `run` is re-executed from scratch for each path."""
     E.assume = list(assume)
     E.reset_all()
-    work = [[]]
+    work = [list(prefix)]     # a forced prefix shards the path space (infeasible shards yield no path)
     paths = []
     while work:
         forced = work.pop()
